@@ -376,6 +376,9 @@ ALPHABETS = {
     'wiki_hostile': (['a!b', '!!', 'c||d', '{|', '|}', '|-'], ['!p', 'q!!r', 's', 't', 'u', 'v']),
     'csv_hostile': (['a,b', '"q"', 'line\nbreak', 'cr\r\nlf', ' lead', 'trail '], ['p,', '""', 'x\ny', "'s'", ', ,', ' ']),
     'backslash': (['a\\b', '\\', 'c\\', '\\n', 'd\\"e', '\\\\x'], ['p\\q', '\\t', 'r\\', '\\\\', "s\\'", '\\0']),
+    # control characters that are no line breaks for files or for the format readers (but are for str.splitlines)
+    'ctrl_inner': (['a\x1eb', 'c\x1cd', 'e\x0bf', 'g\x0ch', 'i\x1dj', 'k\x1fl'],
+                   ['p\x1eq', 'r\x1c\x1ds', 't\x0bu', 'v\x0cw', 'x\x7fy', 'z\x1ez']),
     'long': (['o' * 40, 'a', 'bb', 'c' * 17, 'd', 'ee'], ['p', 'q' * 33, 'r', 'ss', 't' * 9, 'u']),
     # hundreds to thousands of characters, some differing only in their last character (truncation, buffers)
     'very_long': (['o' * 255 + 'x', 'o' * 255 + 'y', 'a' * 1024, 'b' * 4097, 'c' * 300, 'd'],
@@ -513,6 +516,10 @@ def run_case(concepts, case, spec):
                 ('csv', {'object_header': properties[0]}, {}),
                 ('csv', {'object_header': objects[-1], 'bools_as_int': True}, {}),
                 ('python-literal', {}, {})]
+    if (rows[0] + n + m) % 2:
+        # the same context object has been printed / fingerprinted before it is written
+        call(repr, ctx), call(str, ctx), call(ctx.crc32), call(ctx.tostring)
+        COL.count('written_after_repr_str_crc32')
     for fmt, dkw, lkw in variants:
         rep = _representable(fmt, objects, properties)
         if rep and (delim or blank_edge):
